@@ -136,7 +136,8 @@ func loadProg(root string) (*Prog, error) {
 					p.NonNilElems[f[0]] = true
 				}
 				if len(f) >= 2 && f[0] == "assume-pure" {
-					p.PureMethods[f[1]] = strings.Join(f[2:], " ")
+					// the assumption holds for the units of the package that states it
+					p.PureMethods[path+"|"+f[1]] = strings.Join(f[2:], " ")
 				}
 			}
 		}
